@@ -5,7 +5,7 @@ import ast
 
 import z3
 
-from .values import (BIG, FALSE, MAXLEN, NONE, TRUE, W, Lit, Unsupported, V, VBool, VBytes, VFloat,
+from .values import (tid, BIG, FALSE, MAXLEN, NONE, TRUE, W, Lit, Unsupported, V, VBool, VBytes, VFloat,
                      VInt, VNone, VRef, VStr, VTuple, VUnion, View, as_const, concat, mkbool, mkint)
 
 
@@ -87,6 +87,9 @@ def union_of(alts):
 # ---------------------------------------------------------------------------------------------
 
 def truth(I, v) -> VBool:
+    from .values import VAny
+    if isinstance(v, VAny):
+        return _any_pred(I, "truth", v)
     if isinstance(v, VBool):
         return v
     if isinstance(v, VNone):
@@ -395,8 +398,22 @@ def bytes_eq(I, a: VBytes, b: VBytes):
     return z3.And(la == lb, ext)
 
 
+def _any_pred(I, tag, a, b=None):
+    from .values import VAny
+    from . import builtins as B
+    ka = ("any", tid(a.t)) if isinstance(a, VAny) else B.vkey(I, a)
+    kb = None if b is None else (("any", tid(b.t)) if isinstance(b, VAny) else B.vkey(I, b))
+    key = ("anypred", tag, ka, kb)
+    if key not in I.path.memo:
+        I.path.memo[key] = VBool(t=z3.Bool(I.fresh("any_" + tag)))
+    return I.path.memo[key]
+
+
 def _eq(I, a, b) -> VBool:
     """python == on resolved (non-union) values"""
+    from .values import VAny
+    if isinstance(a, VAny) or isinstance(b, VAny):
+        return _any_pred(I, "eq", a, b)
     if isinstance(a, VNone) or isinstance(b, VNone):
         return mkbool(isinstance(a, VNone) and isinstance(b, VNone))
     if isinstance(a, VBytes) and isinstance(b, VBytes):
@@ -443,6 +460,9 @@ def is_values(I, a, b) -> VBool:
         return VBool(t=z3.Or([z3.And(c, is_values(I, v, b).term()) for c, v in a.alts]))
     if isinstance(b, VUnion):
         return VBool(t=z3.Or([z3.And(c, is_values(I, a, v).term()) for c, v in b.alts]))
+    from .values import VAny
+    if isinstance(a, VAny) or isinstance(b, VAny):
+        return _any_pred(I, "is", a, b)
     if isinstance(a, VNone) or isinstance(b, VNone):
         return mkbool(isinstance(a, VNone) and isinstance(b, VNone))
     if isinstance(a, VRef) and isinstance(b, VRef):
